@@ -21,6 +21,8 @@ func main() {
 		err = cmdConc(os.Args[2:])
 	case "life":
 		err = cmdLife(os.Args[2:])
+	case "exp":
+		err = cmdExp(os.Args[2:])
 	default:
 		err = fmt.Errorf("unknown command %s", os.Args[1])
 	}
